@@ -25,7 +25,7 @@ def make_curve(n_app=300, n_ret=None, depth=1e-6, z0=3e-6,
                tilt=0., drift=0., seed=0, zoff=1.25e-6, baseline=0.,
                lag=0, spikes=0, path="/synthetic/curve.h5", enum=0,
                with_tip=False, extra_meta=None, cls=None, perturb=None,
-               drop_meta=(), turn="linear", ring=0):
+               drop_meta=(), turn="linear", ring=0, adhesion=0.):
     """Return a nanite.Indentation with an approach and a retract segment.
 
     The tip position runs from +z0 (far away) down to -depth (indented) and
@@ -56,6 +56,12 @@ def make_curve(n_app=300, n_ret=None, depth=1e-6, z0=3e-6,
     f = f + baseline + tilt * tip + drift * time
     if noise:
         f = f + noise * rng.standard_normal(tip.size)
+    if adhesion:
+        # a sticky sample: pull-off dip in the retract part, `adhesion`
+        # times the maximum indentation force deep
+        fmax = float(np.max(f[:n_app]))
+        dip = adhesion * fmax * np.exp(-((tip_r - 2e-7) / 2.5e-7) ** 2)
+        f[n_app:] = f[n_app:] - dip
     if spikes:
         idx = rng.integers(int(n_app * .7), n_app, size=spikes)
         f[idx] += 5 * max(noise, 1e-11) * 20
